@@ -10,6 +10,7 @@ use std::alloc::{GlobalAlloc, Layout, System};
 use std::io::Cursor;
 use std::sync::atomic::{AtomicUsize, Ordering};
 
+mod fixedloc;
 mod cipher;
 mod codec;
 mod grpc;
@@ -73,6 +74,7 @@ fn main() {
         "alloc" => codec::alloc_bound(seed),
         "packets" => packets::roundtrip(seed),
         "locale" => conn::locale(seed),
+        "fixed_locale" => fixedloc::sweep(seed),
         "limits" => conn::limits(seed),
         "session" => conn::session(seed),
         "cookie_matrix" => conn::cookie_matrix(seed),
